@@ -207,15 +207,17 @@ var fedBadNames = []string{"", "bad name", "a,b", "a\"b", "a/b", "a?b", "é.exam
 var fedURIs = []string{
 	"/_matrix/federation/v1/send/1493385816575/", "/_matrix/federation/v1/query/directory?room_alias=%23test%3Alocalhost%3A44033",
 	"/", "/a%2Fb", "/a%2fb", "/a?b=c&d=e", "/a?", "/a?b=%zz", "//double", "/a/../b", "/a;b", "/_matrix/key/v2/server/ed25519:abc", "/a:b", "/a@b",
-	"/a'b", "/*", "/~", "/%C3%A9", "/a?b=c+d", "/a?b=c%20d", "/a/", "/a", "/_matrix/federation/v2/invite/!room:a.example/$event", "/a?x=1&x=2", "/a=b", "/a,b",
+	"/a'b", "/*", "/~", "/%C3%A9", "/a?b=c+d", "/a?user=\xef\xbf\xbd", "/_matrix/x?q=\xef\xbf\xbd&r=\xef\xbf\xbd", "/a?\xc3\xa9=1", "/a?b=c%20d", "/a/", "/a", "/_matrix/federation/v2/invite/!room:a.example/$event", "/a?x=1&x=2", "/a=b", "/a,b",
 }
-var fedOddURIs = []string{"/a b", "/%zz", "/a#frag", "/é", "", "no-slash", "?q", "/a\"b", "/a\\b", "/a|b", "/a^b", "/a?b=c d", "/a?b=c#d", "/a\x7f", "/a\n", "/a{b}", "/a<b>", "/a`b", "/%", "/a%2", ":8448/a", "@x/a"}
+var fedOddURIs = []string{"/_matrix/x?q=\xff", "/a?user=\xc0", "/a?b=\xed\xa0\x80", "/a?\xfe", "/a b", "/%zz", "/a#frag", "/é", "", "no-slash", "?q", "/a\"b", "/a\\b", "/a|b", "/a^b", "/a?b=c d", "/a?b=c#d", "/a\x7f", "/a\n", "/a{b}", "/a<b>", "/a`b", "/%", "/a%2", ":8448/a", "@x/a"}
 var fedContents = []string{
 	`{}`, `{"a":1}`, `{"b":2,"a":1}`, `{"a": [1, 2, {"c": null}]}`, `[1,2]`, `"str"`, `5`, `null`, `true`, `{"k":"<&>"}`, `{"k":"é"}`, `{"k":"é"}`,
 	`{"edus":[{"content":{"device_id":"YHRUBZNPFS"},"edu_type":"m.device_list_update"}],"origin":"localhost:8800","origin_server_ts":1493385822396,"pdus":[]}`,
 	` { "a" : 1 } `, `{"signatures":{"x":{"ed25519:1":"AAAA"}},"unsigned":{"a":1},"content":{}}`, `{"a":" "}`, `{"a":-0}`, `{"a":1.5}`, `{"a":1e3}`, `[]`, `""`, `0`,
-	`{"method":"GET","uri":"/","origin":"x","destination":"y"}`, `{"a":"😀"}`, `{"a":"😀"}`, `{"z":{"y":{"x":[[],{}]}}}`,
+	`{"method":"GET","uri":"/","origin":"x","destination":"y"}`, `{"a":"ab","n":{"x":1}}`, `{"k":"\ufffd","\ufffd":[{"x":"y"}]}`, `{"a":"\ud83d\ude00"}`, `{"a":"😀"}`, `{"a":"😀"}`, `{"z":{"y":{"x":[[],{}]}}}`,
 }
+// texts SignJSON / VerifyJSON refuse (readers disagree on them): duplicate member names, lone surrogate escapes, invalid UTF-8
+var fedAmbiguousContents = []string{`{"a":1,"a":2}`, `{"a":"\ud800"}`, `{"n":{"x":1,"x":2}}`, "{\"a\":\"\xff\"}", `{"a\udc00":1}`, `[{"k":1,"\u006b":2}]`, `"\ud83d"`, "{\"\xff\":1}"}
 var fedBadContents = []string{`{`, ``, `not json`, `{"a":1}}`, `{'a':1}`, `{"a":01}`, ` `, `{"a":1}{"a":1}`}
 var fedKeyIDs = []string{"ed25519:a_Obwu", "ed25519:1", "ed25519:auto", "ed25519:AbC_09", "ed25519:a_Obwu", "ed25519:1"}
 var fedOddKeyIDs = []string{"ed25519:", "ed25519:a,b", "ed25519:a\"b", "ed25519:a b", "curve25519:x", "ed25519:é", "", "ED25519:1", "ed25519:a=b", "ed25519: a", "ed25519:a\\b", "ed25519:a\x7f"}
@@ -485,7 +487,10 @@ func genFedreq(o *Out, tier string, r *Rng) {
 	// 3. sender-side oddities: odd names, methods, URIs, key IDs, contents (one at a time)
 	for i := 0; i < n/2; i++ {
 		s := r.fedBaseScenario()
-		switch r.Intn(6) {
+		switch r.Intn(7) {
+		case 6:
+			s.content = fedStr(Pick(r, fedAmbiguousContents))
+			o.Count("odd.ambiguous-content")
 		case 0:
 			s.method = Pick(r, fedBadMethods)
 			o.Count("odd.method")
@@ -549,11 +554,18 @@ func (r *Rng) fedTamper(s *fedScenario, o *Out) {
 	effOrigin := s.signName
 	switch r.Intn(12) {
 	case 0: // method
-		m := Pick(r, append(append([]string{}, fedMethods...), "", strings.ToLower(s.method), "GETX"))
+		m := Pick(r, append(append([]string{}, fedMethods...), "", strings.ToLower(s.method), "GETX", "G\xffT", s.method+"\xc3"))
 		s.txMethod = &m
 		o.Count("tamper.method")
 	case 1: // URI
 		u := Pick(r, append(append([]string{}, fedURIs...), s.uri+"/", s.uri+"?x=1", strings.ToLower(s.uri), s.uri+"#f", s.uri+"%20"))
+		if strings.Contains(s.uri, "\xef\xbf\xbd") && r.Chance(70) {
+			// the signed URI holds U+FFFD: transmit bytes that json.Marshal rewrites to U+FFFD (the signed JSON object is the same)
+			u = strings.Replace(s.uri, "\xef\xbf\xbd", Pick(r, []string{"\xff", "\xc0", "\xed\xa0\x80", "\xfe\xfe"}), Pick(r, []int{1, -1}))
+			o.Count("tamper.uri-fffd-to-invalid-utf8")
+		} else if r.Chance(10) {
+			u = Pick(r, []string{s.uri + "?q=\xff", "/a?\xc3", s.uri + "&\x80"})
+		}
 		s.txURI = &u
 		o.Count("tamper.uri")
 	case 2: // content type
@@ -562,7 +574,16 @@ func (r *Rng) fedTamper(s *fedScenario, o *Out) {
 		o.Count("tamper.content-type")
 	case 3: // body
 		var b string
-		switch r.Intn(6) {
+		switch r.Intn(8) {
+		case 6, 7:
+			// the signed body rewritten into a text its readers disagree on (lone surrogate escape, duplicate member, invalid UTF-8)
+			b = Pick(r, fedAmbiguousContents)
+			if s.content != nil {
+				if t2, what := r.signAmbiguate([]byte(*s.content), r.Intn(3), r.Chance(80)); t2 != nil {
+					b = string(t2)
+					o.Count("tamper.body-ambiguous-" + what)
+				}
+			}
 		case 0:
 			b = ""
 		case 1:
@@ -593,9 +614,9 @@ func (r *Rng) fedTamper(s *fedScenario, o *Out) {
 		oo, kk, dd := effOrigin, s.keyID, s.dest
 		switch r.Intn(4) {
 		case 0:
-			oo = Pick(r, append(append([]string{}, fedNames...), fedBadNames...))
+			oo = Pick(r, append(append([]string{"a\xff.example", effOrigin + "\xc3"}, fedNames...), fedBadNames...))
 		case 1:
-			dd = Pick(r, append(append([]string{}, fedNames...), fedBadNames...))
+			dd = Pick(r, append(append([]string{"\xff.example", s.dest + "\xc0"}, fedNames...), fedBadNames...))
 		case 2:
 			kk = Pick(r, append(append([]string{}, fedKeyIDs...), fedOddKeyIDs...))
 		default:
